@@ -325,8 +325,9 @@ impl Scenario {
                 for t in txs {
                     self.block_accepted.push(t.hash_nosigs());
                     // C19: a faucet transaction is accepted at most once on a lineage (the grandfathered testnet transaction aside)
-                    if t.kind == TxKind::Faucet && hex::encode(t.hash_nosigs().0 .0) != "30a60b20830f000f755b70c57c998553a303cc11f8b1f574d5e9f7e26b645d8b"
-                        && !self.faucets_accepted.insert(t.hash_nosigs()) {
+                    if t.kind == TxKind::Faucet && !self.faucets_accepted.insert(t.hash_nosigs()) {
+                        // known finding F18: the grandfathered transaction itself writes no replay marker
+                        if hex::encode(t.hash_nosigs().0 .0) == "30a60b20830f000f755b70c57c998553a303cc11f8b1f574d5e9f7e26b645d8b" { self.tag("F18"); }
                         self.viol("C19", format!("faucet transaction {} accepted a second time", hex::encode(&t.hash_nosigs().0 .0[..6])));
                     }
                 }
@@ -1578,6 +1579,17 @@ pub fn directed(r: &mut Rng) -> Vec<Scenario> {
         let t = sc.mk(r, TxKind::Normal, &[m], vec![sc.cd(at, 1 << 30, Denom::Mel)], vec![]);
         sc.mode = saved;
         let a = Some(ProposerAction { fee_multiplier_delta: 1, reward_dest: at });
+        // C07: the transactions root commits to whole transactions: the block of t and the block of its signature
+        // variant, each sealed honestly on its own copy of the parent, have different transaction roots - in both orders
+        {
+            let mut t2 = t.clone(); t2.sigs.push(Bytes::from(vec![9u8, 9, 9]));
+            let seal_of = |x: &Transaction| -> Option<Header> { let p = parent.clone(); let x = x.clone(); catch_unwind(AssertUnwindSafe(move || { let mut u = p.next_unsealed(); match u.apply_tx_batch(&[x]) { Ok(()) => Some(u.seal(a).header()), Err(_) => None } })).ok().flatten() };
+            let (h1, h2, h1b) = (seal_of(&t), seal_of(&t2), seal_of(&t));
+            if let (Some(h1), Some(h2), Some(h1b)) = (h1, h2, h1b) {
+                if h1.transactions_hash == h2.transactions_hash { sc.viol("C07", "two blocks whose transactions differ (in their signatures) have the same transactions root".into()); }
+                if h1.transactions_hash != h1b.transactions_hash { sc.viol("C07", "the same block sealed twice has two transactions roots".into()); }
+            }
+        }
         // the block holds two Transaction values with one hash_nosigs: which one a txhash-keyed collection keeps
         // depends on the HashSet's iteration order, so the attempt is repeated (a fresh HashSet each time)
         for _ in 0..6 {
@@ -2495,6 +2507,69 @@ pub fn directed(r: &mut Rng) -> Vec<Scenario> {
             sc.op_confirm(&[(0, true), (1, true)]);
             sc.op_restart();
         }
+        out.push(sc);
+    }
+    // the stakes that count for a sealed state are those of ITS height's epoch: around an epoch boundary where one
+    // stake ends and another starts, every subset of signers is tried in the last block of the old epoch and the
+    // first two of the new one
+    {
+        let mut sc = Scenario::new("d_epoch_boundary_votes", r, NetID::Custom02, 1000, 1 << 20);
+        sc.fixed_change = Some(sc.at());
+        let db = Database::new(InMemoryCas::default());
+        let mut stakes = BTreeMap::new();
+        stakes.insert(TxHash(tmelcrypt::hash_single(b"ending")), StakeDoc { pubkey: sc.keys.pk[0], e_start: 0, e_post_end: 1, syms_staked: CoinValue(10) });
+        stakes.insert(TxHash(tmelcrypt::hash_single(b"starting")), StakeDoc { pubkey: sc.keys.pk[1], e_start: 1, e_post_end: 5, syms_staked: CoinValue(10) });
+        stakes.insert(TxHash(tmelcrypt::hash_single(b"through")), StakeDoc { pubkey: sc.keys.pk[2], e_start: 0, e_post_end: 5, syms_staked: CoinValue(1) });
+        let cfg = GenesisConfig { network: NetID::Custom02, init_coindata: CoinData { covhash: sc.at(), value: CoinValue(1 << 50), denom: Denom::Mel, additional_data: Bytes::new() }, stakes, init_fee_pool: CoinValue(1 << 20), init_fee_multiplier: 1000 };
+        sc.mode = Mode::U(cfg.realize(&db));
+        sc.db = db;
+        sc.jump_to_height(STAKE_EPOCH - 2);
+        for _ in 0..3 {
+            sc.op_next();
+            if sc.op_seal(None) != 0 { break; }
+            let h = match &sc.mode { Mode::S(s) => s.header().height.0, _ => 0 };
+            let epoch = h / STAKE_EPOCH;
+            for subset in [vec![0usize], vec![1], vec![2], vec![0, 2], vec![1, 2], vec![0, 1], vec![0, 1, 2]] {
+                let before = sc.steps.len();
+                let v: Vec<(usize, bool)> = subset.iter().map(|k| (*k, true)).collect();
+                sc.op_confirm(&v);
+                // votes by the definition: stake k counts in epoch e iff start <= e < end
+                let power = |k: usize| -> u128 { match k { 0 => if epoch < 1 { 10 } else { 0 }, 1 => if epoch >= 1 && epoch < 5 { 10 } else { 0 }, _ => if epoch < 5 { 1 } else { 0 } } };
+                let total: u128 = (0..3).map(power).sum();
+                let present: u128 = subset.iter().map(|k| power(*k)).sum();
+                let confirmed = sc.log.last().map(|l| l.starts_with("confirm=true")).unwrap_or(false);
+                if sc.steps.len() > before && total > 0 {
+                    if confirmed && 3 * present < 2 * total { sc.viol("C14", format!("height {}: signers holding {} of {} votes of the state's epoch confirmed it", h, present, total)); }
+                    if !confirmed && 3 * present > 2 * total { sc.viol("C14", format!("height {}: signers holding {} of {} votes of the state's epoch did not confirm it", h, present, total)); }
+                }
+            }
+        }
+        out.push(sc);
+    }
+    // the one grandfathered faucet transaction of mainnet exempts itself, not its neighbours: another faucet in the same
+    // batch is refused on mainnet and, elsewhere, still gets its replay marker
+    for net in [NetID::Mainnet, NetID::Custom02] {
+        let mut sc = Scenario::new(if net == NetID::Mainnet { "d_grandfathered_faucet_mainnet" } else { "d_grandfathered_faucet_custom" }, r, net, 0, 1 << 20);
+        let at = sc.at();
+        sc.fixed_change = Some(at);
+        let old = Transaction { kind: TxKind::Faucet, inputs: vec![], outputs: vec![CoinData { value: CoinValue::from_millions(1001u64), denom: Denom::Mel, covhash: "t3ew4xh2yts8j1a8vzdfpbkzzvb5gz3sn7s9jw7qc9djrph2wpg52g".parse().unwrap(), additional_data: vec![].into() }],
+            data: hex::decode("202fb0573b6dfe780f249bec6069bb39dbccb7ed9536c0480e20e1e29050f430").unwrap().into(), fee: CoinValue::from_millions(1001u64), covenants: vec![], sigs: vec![] };
+        sc.dict.cov(old.outputs[0].covhash);
+        let mut f = Transaction::new(TxKind::Faucet);
+        f.outputs = vec![sc.cd(at, 1 << 40, Denom::Mel)];
+        f.data = Bytes::from(vec![0x6f]);
+        let f = sc.finish_tx(r, f, &[], 0, 0);
+        for b in [vec![old.clone(), f.clone()], vec![f.clone(), old.clone()]] {
+            let c = sc.op_batch(&b);
+            if c == 0 && net == NetID::Mainnet { sc.viol("C19", "a faucet transaction was accepted on mainnet next to the grandfathered one".into()); }
+            if c == 0 { break; }
+        }
+        sc.op_batch(&[f.clone()]);
+        sc.op_batch(&[old.clone()]);
+        sc.block_end(None);
+        sc.op_batch(&[f.clone()]);
+        sc.op_batch(&[old.clone(), f.clone()]);
+        sc.block_end(None);
         out.push(sc);
     }
     // a transaction with a forged signature first, then the same transaction with the genuine signatures
